@@ -15,6 +15,7 @@
     weights, lambda_ / fit_intercept = the model's own settings, and the intercept is not regularised (a penalised intercept of an
     intercept-only design is not the weighted median once lambda_ > 0).
 Not decided: that an intercept-only tau = 0.5 quantile regression is the weighted median (solver semantics), uniqueness.
+ R8 same-frames: the closed-form vector is published on the rows it was computed for (restated from C01.R2.binding).
 """
 from __future__ import annotations
 
